@@ -6,13 +6,28 @@ from ..core import expr as X
 from ..core.report import AnalysisError
 
 
+def manifestly_nonneg(n, depth=0):
+    """the expression is non-negative for every value of its atoms, by its shape: |x|, |z|^2, an even power, a positive atom, a non-negative constant, and sums / products /
+    quotients of such"""
+    if depth > 40: return False
+    if n.op == 'fn' and n.val in ('abs', 'abs2'): return True
+    if n.op == 'fn' and n.val in ('sqrt', 'exp'): return True
+    if n.op == 'atom': return n.val[1] == 'pos'
+    if n.op == 'const': return n.val >= 0
+    if n.op == 'powi': return n.val % 2 == 0 or manifestly_nonneg(n.args[0], depth + 1)
+    if n.op in ('add', 'mul', 'div'): return all(manifestly_nonneg(a_, depth + 1) for a_ in n.args)
+    return False
+
+
 def eps_mask(node, pt=None):
-    """float_eps is an infinitesimal: |x| > eps is true unless x is exactly 0 at the (possibly pinned) sample point"""
+    """float_eps is an infinitesimal: |x| > eps is true unless x is exactly 0 at the (possibly pinned) sample point.  Answered only for a quantity that is non-negative by its
+    shape (the |x| of the idiom); a signed quantity compared with eps is a different test (it also switches off every negative value) and is left to the sample points."""
     a, b = node.args
     def is_eps(n): return n.op == 'atom' and n.val[0] == 'float_eps'
     if is_eps(b): other, flip = a, False
     elif is_eps(a): other, flip = b, True
     else: return None
+    if not manifestly_nonneg(other): return None
     zero = False
     if pt is not None:
         try:
